@@ -686,6 +686,39 @@ def gen_sys_late_acks(ctx):
                     yield ("sys-late-ack", sys_script(cfg, prog, placed))
 
 
+def gen_sys_bursts(ctx):
+    """more frames than any small queue bound pile up unconsumed - while the client is idle, and in the local list of a
+    write waiting for its acknowledgement - followed by an alive check, then everything is read: the reader task must not
+    stall behind the backlog (alive check answered at its arrival) and putting the skipped frames back must not fail"""
+    cfg = CFGS[0]
+    ver = cfg[2]
+    for n in ctx.pick((33, 48, 80), (33, 34, 48, 65, 80, 130)):
+        frames = []
+        k = 0
+        for i in range(n):
+            if i in (1, n // 2, n - 1):
+                k += 1
+                frames.append(sys_frame("dT", cfg, k))
+            else:
+                frames.append(sys_frame("dO", cfg, i))
+        reads = [[30, "read", 300] for _ in range(k + 1)]
+        alive = enc(["alive", ""], ver).hex()
+        one = b"".join(enc(f, ver) for f in frames).hex()
+        for drain in (1, 0):
+            # idle client, the burst in one segment / in segments of 7 frames
+            yield ("sys-burst:idle", {"cfg": list(cfg), "drain": drain, "gw": [[105, one], [905, alive]],
+                                      "cl": [[2000, "read", 300]] + reads + [[30, "write", W1, 700]]})
+            segs = [[105 + 10 * j, b"".join(enc(f, ver) for f in frames[j * 7:(j + 1) * 7]).hex()]
+                    for j in range((n + 6) // 7)]
+            yield ("sys-burst:idle-segments", {"cfg": list(cfg), "drain": drain, "gw": segs + [[segs[-1][0] + 300, alive]],
+                                               "cl": [[2500, "read", 300]] + reads})
+            # a write waiting for its acknowledgement skips the whole burst, then the acknowledgement arrives
+            yield ("sys-burst:ack-wait", {"cfg": list(cfg), "drain": drain,
+                                          "gw": [[105, one], [205, alive], [305, enc(sys_frame("ap", cfg, 0), ver).hex()],
+                                                 [405, alive]],
+                                          "cl": [[10, "write", W1, None]] + reads + [[30, "write", W2, 700]]})
+
+
 def gen_sys_random(ctx):
     rng = ctx.rng
     counter = [0]
@@ -759,6 +792,7 @@ def gen_sys_random(ctx):
 def gen_sys_scripts(ctx):
     yield from gen_sys_exhaustive(ctx)
     yield from gen_sys_late_acks(ctx)
+    yield from gen_sys_bursts(ctx)
     for label, s in gen_sys_random(ctx):
         if label.endswith(":nodrain"):
             s["drain"] = 0
@@ -809,7 +843,13 @@ def _stream_kinds(script):
                 kinds.append("hnack")
             else:
                 kinds.append(f"unk{pt:04x}")
-        out.append(f"{t}:" + ("+".join(kinds) if kinds else "part"))
+        runs = []
+        for k in kinds:  # run-length: a burst reads `diagO*31`
+            if runs and runs[-1][0] == k:
+                runs[-1][1] += 1
+            else:
+                runs.append([k, 1])
+        out.append(f"{t}:" + ("+".join(k if n == 1 else f"{k}*{n}" for k, n in runs) if runs else "part"))
     return out
 
 
